@@ -163,6 +163,15 @@ func c13(run *ev.Run) int {
 						opts = append(opts, connect.WithCompressMinBytes(4096))
 					}
 					st.clients = append(st.clients, &c13Client{name: fmt.Sprintf("%s/%s/gz=%v/h2=%v", p, c, gz, h2), proto: p, http2: h2, gzip: gz, cs: st.srv.RawClients(h2, opts...)})
+					if c == "proto" && gz {
+						// the same configuration behind a transport that delays some of
+						// its body reads (time.Sleep only: no synchronisation is added)
+						hc, base := st.srv.RawHTTPClient(h2)
+						ms := time.Millisecond
+						jt := jitterTransport{next: hc.Transport, reqReads: []time.Duration{0, 2 * ms, 0, 5 * ms, 0, ms}, resReads: []time.Duration{0, 0, 3 * ms, 0, ms, 0, 2 * ms}}
+						st.clients = append(st.clients, &c13Client{name: fmt.Sprintf("%s/%s/gz=%v/h2=%v/jitter", p, c, gz, h2), proto: p, http2: h2, gzip: gz,
+							cs: svc.NewClientSet(&http.Client{Transport: jt}, base, opts...)})
+					}
 				}
 			}
 		}
